@@ -87,44 +87,46 @@ theorem isNanF16_spec (bits : Nat) : isNanF16 bits = isNaNBits 16 10 bits := by
   rw [this]
   rfl
 
-/-- **Decimals, equal lengths** (`…_partial`: the statement for operands of *any* lengths is
-false, see `decimal_compare_unequal_len_wrong`).  For byte arrays of the same length —
-every FIXED_LEN_BYTE_ARRAY decimal column, and BYTE_ARRAY columns whose writer always uses
-one width — `compare_greater_byte_array_decimals(a, b)` is `value(a) > value(b)` on the
-two's-complement big-endian integers. -/
-theorem decimal_compare_equal_len_partial (a b : List Nat) (hl : a.length = b.length)
-    (ha : Bytes a) (hb : Bytes b) :
-    compareGreaterByteArrayDecimals a b = decimalGt a b :=
-  compareDecimals_eqLen a b hl ha hb
+/-- **Decimals, any lengths.**  For non-empty byte arrays of arbitrary (also different)
+lengths `compare_greater_byte_array_decimals(a, b)` is `value(a) > value(b)` on the
+two's-complement big-endian integers (sign extension handled correctly: `[0,0,9] > [0,7]`,
+`[0xFF,0x7F] < [0x80]`). -/
+theorem decimal_compare_correct (a b : List Nat) (ha : Bytes a) (hb : Bytes b) (hna : a ≠ []) (hnb : b ≠ []) :
+    compareGreaterByteArrayDecimals a b = decide (decimalValue a > decimalValue b) := by
+  cases a with
+  | nil => exact absurd rfl hna
+  | cons fa ta =>
+    cases b with
+    | nil => exact absurd rfl hnb
+    | cons fb tb => exact compareDecimals_full fa fb ta tb ha hb
+
+/-- the empty-operand rule as written: `if a_length == 0 || b_length == 0 { return a_length > 0 }` -/
+theorem decimal_compare_empty (a b : List Nat) :
+    compareGreaterByteArrayDecimals [] b = false ∧
+    compareGreaterByteArrayDecimals a [] = decide (a.length > 0) := by
+  constructor
+  · rfl
+  · cases a <;> simp [compareGreaterByteArrayDecimals]
 
 example : Bytes [0xFF, 0x10] ∧ Bytes [0x00, 0x10] ∧ decimalValue [0xFF, 0x10] = -240 := by
   refine ⟨by decide, by decide, by decide⟩
 
-/-- **Decimals, unequal lengths: the code is wrong.**  `[0,0,9]` (= 9) and `[0,7]` (= 7):
-after the sign-extension test the function compares `a[1..] = [0,9]` with `b[1..] = [7]`
-instead of the length-aligned tails, and answers `9 > 7 = false`. -/
-theorem decimal_compare_unequal_len_wrong :
-    ¬ ∀ a b : List Nat, Bytes a → Bytes b → a ≠ [] → b ≠ [] →
-        compareGreaterByteArrayDecimals a b = decimalGt a b := by
-  intro h
-  have := h [0, 0, 9] [0, 7] (by decide) (by decide) (by decide) (by decide)
-  revert this
-  decide
+/-- regression example of the former defect: values 7 = `[0,7]` and 9 = `[0,0,9]` now give
+`min = [0,7]`, `max = [0,0,9]`; a redundantly sign-extended negative against a short one. -/
+example :
+    chunkStats compareGreaterByteArrayDecimals (fun _ => false) [[[[0, 7], [0, 0, 9]]]] = ⟨some [0, 7], some [0, 0, 9]⟩ ∧
+    compareGreaterByteArrayDecimals [0x80] [0xFF, 0x7F] = true ∧
+    compareGreaterByteArrayDecimals [0xFF, 0xFF, 0x80] [0x80] = false ∧
+    compareGreaterByteArrayDecimals [0x80] [0xFF, 0xFF, 0x80] = false := by decide
 
-/-- … and the chunk statistics computed with it do not bound the data: values 7 and 9
-give `min = [0,0,9]`, `max = [0,7]`. -/
-theorem decimal_stats_unequal_len_wrong :
-    chunkStats compareGreaterByteArrayDecimals (fun _ => false) [[[[0, 7], [0, 0, 9]]]]
-      = ⟨some [0, 0, 9], some [0, 7]⟩ := by decide
-
-/-- equal-length decimals form a strict weak order under the code's comparison -/
-theorem decimal_strictWeak_fixed_len (n : Nat) :
-    StrictWeak (fun (a b : {bs : List Nat // bs.length = n ∧ Bytes bs}) =>
+/-- decimals of all (non-zero, mixed) lengths form a strict weak order under the code's
+comparison — the hypothesis `chunk_stats_bound` needs for BYTE_ARRAY and FLBA decimal columns -/
+theorem decimal_strictWeak :
+    StrictWeak (fun (a b : {bs : List Nat // bs ≠ [] ∧ Bytes bs}) =>
       compareGreaterByteArrayDecimals a.1 b.1) :=
   strictWeak_of_key (fun a => decimalValue a.1) _ (fun a b => by
     show compareGreaterByteArrayDecimals a.1 b.1 = _
-    rw [compareDecimals_eqLen a.1 b.1 (a.2.1.trans b.2.1.symm) a.2.2 b.2.2]
-    rfl)
+    exact decimal_compare_correct a.1 b.1 a.2.2 b.2.2 a.2.1 b.2.1)
 
 /-- plain BYTE_ARRAY / FIXED_LEN_BYTE_ARRAY (UNSIGNED order): `a > b` on slices -/
 theorem bytes_strictWeak : StrictWeak sliceGt := by
